@@ -132,3 +132,51 @@ def run(ctx):
                 r.ok(rule, key, 'sign and verify both use %s / %s' % ps, loc=sfn[0].loc)
             else:
                 r.fail(rule, key, 'sign_%s uses %s but verify_%s uses %s' % (suffix, ps, suffix, pv), loc=sfn[0].loc)
+    whole_buffers(ctx)
+
+
+def whole_buffers(ctx, rule='whole-buffers'):
+    """"changing any signature byte makes verification fail", structural part: on the way from asymmetric_sign /
+    asymmetric_verify_signature down to the OpenSSL Signer / Verifier the data and the signature are handed on as the whole
+    parameter at every hop (no sub-slice, no copy of a prefix), so every byte the caller supplied is what OpenSSL judges."""
+    r, db = ctx.r, ctx.db
+    PUB = 'crypto::pkey::PKey::<openssl::pkey::Public>::'
+    PRI = 'crypto::pkey::PKey::<openssl::pkey::Private>::'
+    n = 0
+
+    def whole(b, F, op, pname):
+        t = fmt_sym(b, F.sym_operand(op))
+        ps = b.local_by_name(pname)
+        return bool(ps) and ps[0] <= b.argc and t == '&(*%s(_%d))' % (pname, ps[0]), t
+
+    hops = []
+    for suffix in ('sha1', 'sha256', 'sha256_pss'):
+        hops.append((PUB + 'verify_' + suffix, r'PKey::verify$', {2: 'data', 3: 'signature'}))
+        hops.append((PRI + 'sign_' + suffix, r'PKey::sign$', {2: 'data', 3: 'signature'}))
+    hops.append((PUB + 'verify', r'openssl::sign::Verifier::update$', {1: 'data'}))
+    hops.append((PUB + 'verify', r'openssl::sign::Verifier::verify$', {1: 'signature'}))
+    hops.append((PRI + 'sign', r'openssl::sign::Signer::update$', {1: 'data'}))
+    hops.append((SP + 'asymmetric_verify_signature', r'PKey::verify_\w+$', {1: 'data', 2: 'signature'}))
+    hops.append((SP + 'asymmetric_sign', r'PKey::sign_\w+$', {1: 'data', 2: 'signature'}))
+    for path, pat, argmap in hops:
+        bs = db.find_bodies('^' + re.escape(path) + '$')
+        key = '%s->%s' % (path.rsplit('::', 1)[-1], pat.rsplit('::', 1)[-1].rstrip('$').replace('\\w+', '*'))
+        if not bs:
+            r.lost(rule, key, '%s not found' % path); continue
+        b = bs[0]; F = ctx.facts(b)
+        cs = [c for c in b.calls() if re.search(pat, c.callee) and not (path.endswith('asymmetric_verify_signature') and 'sign_' in c.callee)]
+        if not cs:
+            r.lost(rule, key, 'no call matching %s in %s' % (pat, path)); continue
+        for c in cs:
+            for idx, pname in sorted(argmap.items()):
+                n += 1
+                ok, t = whole(b, F, c.args[idx], pname)
+                k2 = '%s:%s' % (key if len(cs) == 1 else key + '@' + c.callee.rsplit('::', 1)[-1], pname)
+                if ok:
+                    r.ok(rule, k2, 'the whole `%s` parameter is handed on' % pname, loc=c.loc)
+                else:
+                    r.fail(rule, k2, '%s passes %s instead of its whole `%s` parameter: bytes the caller supplied are not judged (appending to or altering the ignored part '
+                           'of a signature still verifies)' % (path.rsplit('::', 1)[-1], t[:100], pname), loc=c.loc)
+    # the signature produced fills the caller's buffer exactly (copy_from_slice panics on a length mismatch, which C17's E1 part accounts for)
+    r.count('whole_buffer_hops', n)
+    r.floor(rule, 'whole_buffer_hops', n, 21)
